@@ -921,9 +921,11 @@ impl Session {
             return Ok(());
         }
 
-        // Flush buffer if any
+        // Flush buffer if any. The buffer lock is kept until the bytes are on the transport:
+        // otherwise a concurrent write_frame that finds the buffer already empty can reach
+        // the writer first and overtake the buffered Settings/SYN frames.
+        let mut buf = self.buffer.lock().await;
         {
-            let mut buf = self.buffer.lock().await;
             if !buf.is_empty() {
                 let buffered_len = buf.len();
                 tracing::debug!(
@@ -963,7 +965,9 @@ impl Session {
         }
 
         // Write with padding if enabled
-        self.write_with_padding(buffer).await
+        let result = self.write_with_padding(buffer).await;
+        drop(buf);
+        result
     }
 
     /// Write buffer to connection with padding applied
